@@ -270,11 +270,14 @@ pub struct C10 {
 impl C10 {
     /// A consumer that reads records from a bare DeferredReader through ONE family of look-ahead calls
     /// (the parsers only ever use request_byte / request_byte_at_offset): 4 styles x 4 chunk sizes x
-    /// 3 read sizes (1 byte, a full chunk, exactly one record per read).
+    /// 3 read sizes (1 byte, a full chunk, exactly one record per read); two more styles keep a steady look-ahead
+    /// of more than three chunks.
     fn case_raw(&mut self, idx: u64, _rng: &mut Rng, rep: &mut Report) {
-        let style = idx % 4;
-        let chunk = [64usize, 4096, 16384, 65536][((idx / 4) % 4) as usize];
-        let read_mode = (idx / 16) % 3;
+        let style = idx % 6;
+        let chunk = [64usize, 4096, 16384, 65536][((idx / 6) % 4) as usize];
+        let read_mode = (idx / 24) % 3;
+        // styles 4 and 5 keep a steady look-ahead of more than three chunks in front of the cursor
+        let window = 3 * chunk + 16;
         let target = self.mib << 20;
         // styles 0..2: fixed 16-byte records; style 3: length-prefixed records of 1..=200 bytes
         let mut emitted = 0u64;
@@ -371,6 +374,35 @@ impl C10 {
                             break;
                         }
                     }
+                    4 => {
+                        let b = r.request(window);
+                        if b.len() < 16 {
+                            if !b.is_empty() {
+                                bad = format!("partial record of {} bytes at the end", b.len());
+                            }
+                            break;
+                        }
+                        if b[0] != b'R' || b[15] != b'\n' {
+                            bad = format!("record {} damaged", n);
+                            break;
+                        }
+                        r.advance(16);
+                    }
+                    5 => {
+                        let _ = r.request_byte_at_offset(window - 1);
+                        if r.buf_len() < 16 {
+                            if r.buf_len() != 0 {
+                                bad = format!("partial record of {} bytes at the end", r.buf_len());
+                            }
+                            break;
+                        }
+                        let b = r.buf();
+                        if b[0] != b'R' || b[15] != b'\n' {
+                            bad = format!("record {} damaged", n);
+                            break;
+                        }
+                        r.advance(16);
+                    }
                     _ => {
                         let Some(len) = r.request_byte() else { break };
                         let len = len as usize;
@@ -391,14 +423,24 @@ impl C10 {
             (n, bad)
         });
         let peak = win.peak();
-        let max_item = if style == 3 { 201 } else { 16 };
+        let max_item = match style {
+            3 => 201,
+            4 | 5 => window,
+            _ => 16,
+        };
         let bound = 8 * chunk + 4 * max_item + (16 << 10);
         rep.inc("streams");
         rep.inc("raw_streams");
         rep.inc(&format!(
             "raw_style:{}",
-            ["request+advance", "request_byte_at_offset+advance", "request_more+advance_with_buf", "length_prefixed:request_byte+request+advance"]
-                [style as usize]
+            [
+                "request+advance",
+                "request_byte_at_offset+advance",
+                "request_more+advance_with_buf",
+                "length_prefixed:request_byte+request+advance",
+                "steady_lookahead_of_3_chunks:request+advance",
+                "steady_lookahead_of_3_chunks:request_byte_at_offset+advance",
+            ][style as usize]
         ));
         rep.count("items", records);
         rep.count("bytes_streamed", target);
